@@ -78,7 +78,7 @@ def plan(tier, seed):
         layouts = ['forward', 'reverse'] if tier == 'thorough' else [['forward', 'reverse'][idx % 2]]
         for layout in layouts:
             jobs.append(dict(kind='pair', prod=pr, cons=co, param=pn, layout=layout, meta=(idx % 3 == 0), extra_consumer=(idx % 2 == 1), alt=(idx // 2) % 2, intcols=(idx % 4 == 1),
-                             n=2 if heavy else 3, sampled=(tier == 'quick')))
+                             n=(1 if (pr == co == 'FuzzyXOr') else 2) if heavy else 3, sampled=(tier == 'quick')))      # XOr of XOr: one cell (a rational function of a rational function)
     # deeper shapes: diamonds and depth-3 chains drawn from the typed grammar (labelled sampled)
     ndeep = 12 if tier == 'quick' else 120
     cheap = [s for s in specs if 'ZScore' not in s.name and 'MeanToMid' not in s.name and s.name not in ('FuzzyXOr', 'FuzzySelectedUnion')]
